@@ -121,7 +121,8 @@ def compare_case(ctx, name, fam, l, o, strict_stats):
         if w is None or w["a2"] == 0:
             continue
         cx = Fraction(w["cx"], 3 * w["a2"]) / S; cy = Fraction(w["cy"], 3 * w["a2"]) / S
-        if abs(float(cx) - p.center[0]) > 1e-9 or abs(float(cy) - p.center[1]) > 1e-9:
+        ctol = max(1e-9, 4e-17 * len(w["e"]) / (float(Fraction(w["a2"]) / (S * S)) / 2))       # accuracy of the shoelace formula in doubles, see oracle_faces
+        if abs(float(cx) - p.center[0]) > ctol or abs(float(cy) - p.center[1]) > ctol:
             ctx.corr_break(f"{name}: centre differs from the model", dict(case=name, lattice=zoo.lat_to_json(l)))
             break
     # ---- bookkeeping
